@@ -390,7 +390,14 @@ def run_history(case) -> CaseResult:
             if q and n:
                 h.deliver(side, min(n, max(len(q[0]) - 1, 1)))
                 labels.add('cut-mid-record')
-            h.cut_wire()
+            how = term[3] if len(term) > 3 else 'eof'
+            labels.add('cut-how:' + how)
+            h.cut_wire({'eof': None,
+                        'reset': ConnectionResetError(
+                            104, 'Connection reset by peer'),
+                        'etimedout': TimeoutError(
+                            110, 'Connection timed out'),
+                        'epipe': BrokenPipeError(32, 'Broken pipe')}[how])
         elif term[0] == 'timeout':
             h.advance(200000)
 
@@ -862,7 +869,9 @@ def strategy(tier: str):
         pick(['cclose', 'cabort', 'sclose', 'sabort', 'sdisconnect',
               'cdisconnect', 'timeout']).map(lambda t: [t]),
         st.tuples(st.just('cut'), pick(['c', 's']),
-                  pick([0, 0, 1, 3, 4, 5, 17, 40, 200])).map(list))
+                  pick([0, 0, 1, 3, 4, 5, 17, 40, 200]),
+                  pick(['eof', 'eof', 'reset', 'reset', 'etimedout',
+                        'epipe'])).map(list))
     return st.fixed_dictionaries({
         'server': pick(['echo', 'gated-echo', 'gated-exit', 'flood', 'never',
                         'hello', 'eof-gated']),
@@ -901,6 +910,16 @@ def cut_cases(tier: str):
                                else list(script),
                                'term': ['cut', side, k]}
 
+                    # the same cut reported as a socket error instead of an
+                    # end of stream (at the record boundary and inside one)
+                    for k, how in ((0, 'reset'), (5, 'reset'),
+                                   (0, 'etimedout')):
+                        yield {'server': server, 'window': 4096,
+                               'chunks': [],
+                               'ops': script + [['deliver', d]] if d
+                               else list(script),
+                               'term': ['cut', side, k, how]}
+
 
 FAMILIES = [
     Family('histories', run_history, strategy=strategy,
@@ -910,12 +929,15 @@ FAMILIES = [
                       ('read', 'wait', 'drain', 'proc', 'sftp-read',
                        'sftp-stat', 'forward', 'run', 'wait_closed')] +
                      ['cut-mid-record', 'wait-before-term',
+                      'cut-how:reset', 'cut-how:etimedout', 'cut-how:eof',
                       'drain-blocked-after-peer-eof:client',
                       'drain-blocked-after-peer-eof:server']},
            case_timeout=120, timeout_is_violation=True),
     Family('refused', run_refused, enumerate=refused_cases, exhaustive=True,
            case_timeout=120, timeout_is_violation=True),
     Family('cuts', run_history, enumerate=cut_cases, exhaustive=True,
+           required={'all': ['cut-how:reset', 'cut-how:etimedout',
+                             'cut-how:eof', 'pending:sftp-stat']},
            case_timeout=120, timeout_is_violation=True),
     Family('redirected', run_redirected, enumerate=redirected_cases,
            exhaustive=True, required={'all': ['pending:drain', 'term:cut',
